@@ -36,6 +36,9 @@ type OpRec struct {
 	Err    error
 	HasMsg bool
 	Msg    []byte
+	// DownRead: response-body bytes the client had consumed when the operation
+	// returned (-1: no stub exchange)
+	DownRead int
 }
 
 // HObs is what the handler side observed.
@@ -718,6 +721,10 @@ func hasCancelOp(p *CallPlan) bool {
 func (w *World) rec(o *CallObs, rcv bool, r OpRec) {
 	r.End = stepsNow(w.S)
 	r.EndT = time.Now()
+	r.DownRead = -1
+	if ex := o.Call.Exchange(); ex != nil {
+		r.DownRead = ex.Down.ReadOffset()
+	}
 	if rcv {
 		o.OpsRcv = append(o.OpsRcv, r)
 	} else {
